@@ -145,6 +145,9 @@ def run(ctx):
     batch.run()
     ctx.cov["structural_faults"] = nf
     ctx.cov["traces_validated_against_impl"] = nf
+    import loadedworld
+    lh = loadedworld.stream(ctx, g, ctx.rng, 6 if ctx.quick else 150, 12 if ctx.quick else 30, "loaded")
+    ctx.cov["histories_continued_from_loaded_files"] = len(lh)
     ctx.cov["rule"] = ("%d valid messages, every single structural fault at every site (%d faulty messages), outcome class against the property's table and against the model reader; "
                        "all header variations; %d saved files accepted; %d of them corrupted at byte level (every truncation, bit flips, substitutions at every position), each outcome "
                        "judged by the coherence oracle" % (n_msg, nf, n_save, len(files)))
